@@ -309,8 +309,12 @@ def judge(w, case):
             os.unlink(target)
         if case["how"] == "zero-length":
             open(target, "wb").write(b"")
-        elif case["how"] == "non-utf8":
-            open(target, "wb").write(b"[metadata]\nk = \"\xff\xfe\"\n")
+        elif case["how"] in ("non-utf8", "non-utf8-comment"):
+            # an otherwise complete and valid document with bytes that are not UTF-8, inside a string
+            # value or inside a comment
+            valid = {"store": b'[metadata]\nk = "v"\n', "plan": b'[[entries]]\nname = "dep"\n', "descriptor": VALID_BP_TOML.encode()}[case["where"]]
+            bad = b'\n# caf\xe9\n' if case["how"] == "non-utf8-comment" else (b'\n[metadata.zz]\nq = "\xff\xfe"\n' if case["where"] != "plan" else b'\n[entries.metadata]\nq = "\xff\xfe"\n')
+            open(target, "wb").write(valid + bad)
         elif case["how"] == "directory":
             os.mkdir(target)
         elif case["how"] == "dangling":
@@ -323,7 +327,18 @@ def judge(w, case):
         if case["how"] != "dangling":
             expect_error = True
     if env is None:
-        r = w.run(phase, {})
+        # every platform variable is also set, differently, in the buildpack process's own
+        # environment: the context must report what <platform>/env holds, not what the process has
+        own = {}
+        if kind == "platform-env":
+            for name_i, _ in case["entries"]:
+                try:
+                    n = NAMES[name_i].decode()
+                except UnicodeDecodeError:
+                    continue
+                if "=" not in n:
+                    own[n] = "value-of-the-buildpack-process"
+        r = w.run(phase, {}, extra_env=own)
     else:
         e = {k: v2 for k, v2 in env.items()}
         e[b"CNB_BUILDPACK_DIR"] = w.p("bp").encode()
@@ -470,7 +485,7 @@ def cases(thorough):
     out.append({"kind": "store-empty-metadata"})
     out.append({"kind": "unreadable", "where": "store", "how": "zero-length"})
     for where in ("store", "plan", "descriptor"):
-        for how in ("non-utf8", "directory", "dangling", "malformed"):
+        for how in ("non-utf8", "non-utf8-comment", "directory", "dangling", "malformed"):
             out.append({"kind": "unreadable", "where": where, "how": how})
     # E. the directories handed over in other spellings: via a symlink, relative to the working
     # directory (= app dir), with redundant segments; the context must name them as supplied
@@ -522,7 +537,7 @@ def run(ctx):
     res.cov("distinct_nontrivial", nontrivial)
     res.cov("distinct_outcomes", sorted(outcomes))
     res.cov("determinism_replays", 6)
-    res.cov("rule", "platform env: all sets of <=2 (thorough: <=3 over a reduced kind set) entries with distinct names over 8 names (dots, leading dots, space, '=', non-ASCII, non-UTF-8) x 9 kinds (4 file contents, directory, symlink to file/dir, dangling, non-UTF-8 content); env/platform dir missing; values of 2^k-1, 2^k, 2^k+1 bytes for k in {12,16,17,20}; target: every present/absent x value combination of the five CNB_TARGET_* variables (quick: <=2 non-default) over values {linux, '', 'a b', non-UTF-8, windows, a value in double quotes, a value padded with white space}; TOML: every value kind (18 strings, ints incl. extremes, floats incl. inf/nan/-0, bools, 4 datetime kinds, arrays/tables depth 2) in plan entry metadata, store and descriptor metadata, and the plan and the store handed over as a FIFO (reported size 0; the descriptor is legitimately read more than once; one short and one 70 kB document); all through the real detect/build runtime; directory spellings: layers / platform / buildpack directory each given plain, through a symlink, relative to the working directory, or with redundant segments (4^3 build + 4^2 detect cases), the context must name them as supplied and still find env, store and descriptor; in-process sequences: every sequence of 2..3 (thorough: ..4) programmatic libcnb_runtime_detect/libcnb_runtime_build calls in ONE process over 12 symbols (2 worlds x 3 content variants of descriptor, platform env, plan, store and target variables, one of them with the descriptor removed, x 2 phases), each step (result and context handed to the buildpack code; the files it leaves are compared by C05) compared with the same invocation run alone in a fresh process. non-trivial = case with at least one non-default input")
+    res.cov("rule", "platform env (each name also set, differently, in the process's own environment): all sets of <=2 (thorough: <=3 over a reduced kind set) entries with distinct names over 8 names (dots, leading dots, space, '=', non-ASCII, non-UTF-8) x 9 kinds (4 file contents, directory, symlink to file/dir, dangling, non-UTF-8 content); env/platform dir missing; values of 2^k-1, 2^k, 2^k+1 bytes for k in {12,16,17,20}; target: every present/absent x value combination of the five CNB_TARGET_* variables (quick: <=2 non-default) over values {linux, '', 'a b', non-UTF-8, windows, a value in double quotes, a value padded with white space}; TOML: every value kind (18 strings, ints incl. extremes, floats incl. inf/nan/-0, bools, 4 datetime kinds, arrays/tables depth 2) in plan entry metadata, store and descriptor metadata, and the plan and the store handed over as a FIFO (reported size 0; the descriptor is legitimately read more than once; one short and one 70 kB document); all through the real detect/build runtime; directory spellings: layers / platform / buildpack directory each given plain, through a symlink, relative to the working directory, or with redundant segments (4^3 build + 4^2 detect cases), the context must name them as supplied and still find env, store and descriptor; in-process sequences: every sequence of 2..3 (thorough: ..4) programmatic libcnb_runtime_detect/libcnb_runtime_build calls in ONE process over 12 symbols (2 worlds x 3 content variants of descriptor, platform env, plan, store and target variables, one of them with the descriptor removed, x 2 phases), each step (result and context handed to the buildpack code; the files it leaves are compared by C05) compared with the same invocation run alone in a fresh process. non-trivial = case with at least one non-default input")
     res.cov("exhaustive", True)
     res.sample(cs[3])
     res.sample(cs[len(cs) // 2])
